@@ -127,6 +127,12 @@ func genC15(w *World, res *CheckResult) {
 		res.Obls = append(res.Obls, selectObls(e14.obls, `^checker\.combined\[`)...)
 	}
 	verifyInit(w, res, "compiler")
+	// a folded literal keeps a static type that agrees with its value (cells of C02): a float stamped int switches on the int-only rewrites
+	{
+		tmp := &CheckResult{Extra: map[string]interface{}{}}
+		genC02(w, tmp)
+		res.Obls = append(res.Obls, selectObls(tmp.Obls, `^optimizer\.fold\[.*\]/post:type-agrees$`)...)
+	}
 	// a conditional's static type is one both branch values have (cells of C03): a wrong int here switches on the int-only rewrites
 	genCheckerConditional(w, res)
 	// the optimizer's type-directed rewrites fire only for operands of exactly the type they are valid for
